@@ -1130,8 +1130,317 @@ func genDispatch(c *Ctx) (string, error) {
 		return "", err
 	}
 	b.WriteString("(* transport.go, handle: does the owner loop perform ch.WriteFcall itself inside its\n   `case req := <-t.requests` arm (true), or does a goroutine started by handle do it (false)? *)\n")
-	fmt.Fprintf(&b, "Definition gen_owner_loop_writes : bool := %v.\n", olw)
+	fmt.Fprintf(&b, "Definition gen_owner_loop_writes : bool := %v.\n\n", olw)
+
+	// ---- the hand-offs between the goroutines that carry a call (Model/Flow.v)
+	ff, err := dspFlowFacts(c)
+	if err != nil {
+		return "", err
+	}
+	b.WriteString("(* transport.go / serveconn.go: which goroutine blocks on which hand-off (the structure Model/Flow.v abstracts).\n   Each entry: (fact, holds?).  Channel capacities: (channel, capacity). *)\n")
+	b.WriteString("Definition gen_flow_facts : list (string * bool) :=\n  [")
+	for k, f := range ff.facts {
+		if k > 0 {
+			b.WriteString(";\n   ")
+		}
+		fmt.Fprintf(&b, "(%q, %v)", f.name, f.holds)
+	}
+	b.WriteString("].\n")
+	b.WriteString("Definition gen_flow_chan_caps : list (string * N) :=\n  [")
+	for k, f := range ff.caps {
+		if k > 0 {
+			b.WriteString("; ")
+		}
+		fmt.Fprintf(&b, "(%q, %d%%N)", f.name, f.cap)
+	}
+	b.WriteString("].\n")
 	return b.String(), nil
+}
+
+type dspFact struct {
+	name  string
+	holds bool
+}
+type dspCap struct {
+	name string
+	cap  uint64
+}
+type dspFlow struct {
+	facts []dspFact
+	caps  []dspCap
+}
+
+// dspSelectSends: does the node contain a select statement with a case `ch <- …` (ch an identifier or x.ch)?
+func dspSelectSends(n ast.Node, ch string) bool {
+	found := false
+	ast.Inspect(n, func(x ast.Node) bool {
+		cc, ok := x.(*ast.CommClause)
+		if !ok || cc.Comm == nil {
+			return true
+		}
+		if snd, ok := cc.Comm.(*ast.SendStmt); ok {
+			if dspIdent(snd.Chan) == ch {
+				found = true
+			}
+			if s, ok := snd.Chan.(*ast.SelectorExpr); ok && s.Sel.Name == ch {
+				found = true
+			}
+		}
+		return true
+	})
+	return found
+}
+
+// dspRecvArm finds, in the outermost select of loop, the arm `x := <-ch` / `<-ch`.
+func dspRecvArm(sel *ast.SelectStmt, ch string) *ast.CommClause {
+	for _, cl := range sel.Body.List {
+		cc := cl.(*ast.CommClause)
+		var e ast.Expr
+		switch x := cc.Comm.(type) {
+		case *ast.AssignStmt:
+			if len(x.Rhs) == 1 {
+				e = x.Rhs[0]
+			}
+		case *ast.ExprStmt:
+			e = x.X
+		}
+		u, ok := e.(*ast.UnaryExpr)
+		if !ok || u.Op != token.ARROW {
+			continue
+		}
+		if dspIdent(u.X) == ch {
+			return cc
+		}
+		if s, ok := u.X.(*ast.SelectorExpr); ok && s.Sel.Name == ch {
+			return cc
+		}
+	}
+	return nil
+}
+
+// dspLoopSelect: the function body's (last) `for { … select {…} … }`: returns the loop and its single top-level select.
+func dspLoopSelect(body *ast.BlockStmt, who string) (*ast.ForStmt, *ast.SelectStmt, error) {
+	var loop *ast.ForStmt
+	for _, st := range body.List {
+		if l, ok := st.(*ast.ForStmt); ok {
+			loop = l
+		}
+		if ls, ok := st.(*ast.LabeledStmt); ok {
+			if l, ok := ls.Stmt.(*ast.ForStmt); ok {
+				loop = l
+			}
+		}
+	}
+	if loop == nil || loop.Cond != nil {
+		return nil, nil, fmt.Errorf("%s: no unconditional for loop", who)
+	}
+	var sel *ast.SelectStmt
+	for _, st := range loop.Body.List {
+		if s, ok := st.(*ast.SelectStmt); ok {
+			if sel != nil {
+				return nil, nil, fmt.Errorf("%s: more than one select at the top of the loop", who)
+			}
+			sel = s
+		}
+	}
+	if sel == nil {
+		return nil, nil, fmt.Errorf("%s: loop has no top-level select", who)
+	}
+	return loop, sel, nil
+}
+
+// dspMakeChanCaps: every `x := make(chan T[, n])` / `x = make(…)` / field `x: make(…)` inside n.
+func dspMakeChanCaps(c *Ctx, n ast.Node, prefix string, out *[]dspCap) error {
+	var err error
+	rec := func(name string, call *ast.CallExpr) {
+		if dspIdent(call.Fun) != "make" || len(call.Args) == 0 {
+			return
+		}
+		if _, ok := call.Args[0].(*ast.ChanType); !ok {
+			return
+		}
+		capv := uint64(0)
+		if len(call.Args) == 2 {
+			tv, ok := c.Info.Types[call.Args[1]]
+			if !ok || tv.Value == nil {
+				err = fmt.Errorf("%s%s: channel capacity is not a constant", prefix, name)
+				return
+			}
+			capv, _ = constant.Uint64Val(tv.Value)
+		}
+		*out = append(*out, dspCap{prefix + name, capv})
+	}
+	ast.Inspect(n, func(x ast.Node) bool {
+		switch y := x.(type) {
+		case *ast.AssignStmt:
+			for k, r := range y.Rhs {
+				if call, ok := r.(*ast.CallExpr); ok && k < len(y.Lhs) && dspIdent(y.Lhs[k]) != "" {
+					rec(dspIdent(y.Lhs[k]), call)
+				}
+			}
+		case *ast.ValueSpec:
+			for k, r := range y.Values {
+				if call, ok := r.(*ast.CallExpr); ok && k < len(y.Names) {
+					rec(y.Names[k].Name, call)
+				}
+			}
+		case *ast.KeyValueExpr:
+			if call, ok := y.Value.(*ast.CallExpr); ok && dspIdent(y.Key) != "" {
+				rec(dspIdent(y.Key), call)
+			}
+		}
+		return true
+	})
+	return err
+}
+
+// dspFlowFacts reads the blocking structure Model/Flow.v abstracts:
+//
+//	client reader  : loop { ReadFcall; select { responses <- fcall … } }
+//	owner loop     : select arms t.requests / responses (+ writer hand-off); responses arm ends in a send on the
+//	                 request's own reply channel, which has capacity >= 1 (never blocks)
+//	server reader  : conn.read  : loop { ReadFcall; select { requests <- req … } }
+//	server writer  : conn.write : loop { select { resp := <-responses: WriteFcall … } }
+//	serve loop     : conn.serve : starts read and write as goroutines; loop select with arms <-requests and
+//	                 <-completed; the completed arm hands over with a blocking select { responses <- resp … };
+//	                 the requests arm runs the handler in a goroutine that ends in select { completed <- resp … }
+func dspFlowFacts(c *Ctx) (*dspFlow, error) {
+	ff := &dspFlow{}
+	add := func(name string, holds bool) { ff.facts = append(ff.facts, dspFact{name, holds}) }
+
+	// --- client
+	hd := c.FuncDecl("transport", "handle")
+	if hd == nil {
+		return nil, fmt.Errorf("transport.handle not found")
+	}
+	var reader *ast.FuncLit
+	for _, st := range hd.Body.List {
+		if g, ok := st.(*ast.GoStmt); ok {
+			if fl, ok := g.Call.Fun.(*ast.FuncLit); ok && dspContainsCall(fl.Body, "ReadFcall") {
+				if reader != nil {
+					return nil, fmt.Errorf("transport.handle: two goroutines call ReadFcall")
+				}
+				reader = fl
+			}
+		}
+	}
+	if reader == nil {
+		return nil, fmt.Errorf("transport.handle: no reader goroutine (go func(){… ReadFcall …}())")
+	}
+	add("client reader: after ReadFcall, hands the reply over with a select-send on responses", dspSelectSends(reader.Body, "responses"))
+	_, osel, err := dspLoopSelect(hd.Body, "transport.handle")
+	if err != nil {
+		return nil, err
+	}
+	ra := dspRecvArm(osel, "responses")
+	add("owner loop: takes replies in its select (case b := <-responses)", ra != nil)
+	add("owner loop: takes requests in its select (case req := <-t.requests)", dspRecvArm(osel, "requests") != nil)
+	delivers := false
+	if ra != nil {
+		for _, st := range ra.Body {
+			if snd, ok := st.(*ast.SendStmt); ok {
+				if f, ok := dspSel(snd.Chan, "req"); ok && f == "response" {
+					delivers = true
+				}
+			}
+		}
+	}
+	add("owner loop: wakes the caller with a plain send on req.response", delivers)
+	if fd := c.FuncDecl("", "newFcallRequest"); fd != nil {
+		if err := dspMakeChanCaps(c, fd.Body, "fcallRequest.", &ff.caps); err != nil {
+			return nil, err
+		}
+	} else {
+		return nil, fmt.Errorf("newFcallRequest not found")
+	}
+	if fd := c.FuncDecl("", "newTransport"); fd != nil {
+		if err := dspMakeChanCaps(c, fd.Body, "transport.", &ff.caps); err != nil {
+			return nil, err
+		}
+	}
+	// channels local to handle (declared in its var block / body, outside the goroutines' literals is fine too)
+	if err := dspMakeChanCaps(c, hd.Body, "handle.", &ff.caps); err != nil {
+		return nil, err
+	}
+
+	// --- server
+	sd := c.FuncDecl("conn", "serve")
+	rd := c.FuncDecl("conn", "read")
+	wd := c.FuncDecl("conn", "write")
+	if sd == nil || rd == nil || wd == nil {
+		return nil, fmt.Errorf("conn.serve / conn.read / conn.write not found")
+	}
+	goRead, goWrite := false, false
+	for _, st := range sd.Body.List {
+		if g, ok := st.(*ast.GoStmt); ok {
+			if m, ok := dspSel(g.Call.Fun, "c"); ok {
+				if m == "read" && len(g.Call.Args) == 1 && dspIdent(g.Call.Args[0]) == "requests" {
+					goRead = true
+				}
+				if m == "write" && len(g.Call.Args) == 1 && dspIdent(g.Call.Args[0]) == "responses" {
+					goWrite = true
+				}
+			}
+		}
+	}
+	add("serve: starts `go c.read(requests)` and `go c.write(responses)`", goRead && goWrite)
+	add("server reader: calls ReadFcall and hands the request over with a select-send on requests",
+		dspContainsCall(rd.Body, "ReadFcall") && dspSelectSends(rd.Body, "requests"))
+	_, wsel, err := dspLoopSelect(wd.Body, "conn.write")
+	if err != nil {
+		return nil, err
+	}
+	wa := dspRecvArm(wsel, "responses")
+	wr := false
+	if wa != nil {
+		for _, st := range wa.Body {
+			if dspContainsCall(st, "WriteFcall") {
+				wr = true
+			}
+		}
+	}
+	add("server writer: takes a reply from responses in its select and performs WriteFcall in that arm", wr)
+	_, ssel, err := dspLoopSelect(sd.Body, "conn.serve")
+	if err != nil {
+		return nil, err
+	}
+	qa := dspRecvArm(ssel, "requests")
+	ca := dspRecvArm(ssel, "completed")
+	add("serve loop: select with arms <-requests and <-completed", qa != nil && ca != nil)
+	fwd, inl := false, false
+	if ca != nil {
+		for _, st := range ca.Body {
+			if s, ok := st.(*ast.SelectStmt); ok && dspSelectSends(s, "responses") {
+				fwd = true
+			}
+			if dspContainsCall(st, "WriteFcall") {
+				inl = true
+			}
+		}
+	}
+	add("serve loop: the completed arm forwards the reply with a blocking select-send on responses", fwd && !inl)
+	hgo, hinline := false, false
+	if qa != nil {
+		ast.Inspect(&ast.BlockStmt{List: qa.Body}, func(x ast.Node) bool {
+			switch y := x.(type) {
+			case *ast.GoStmt:
+				if fl, ok := y.Call.Fun.(*ast.FuncLit); ok && dspContainsCall(fl.Body, "Handle") && dspSelectSends(fl.Body, "completed") {
+					hgo = true
+				}
+				return false
+			case *ast.CallExpr:
+				if s, ok := y.Fun.(*ast.SelectorExpr); ok && s.Sel.Name == "Handle" {
+					hinline = true
+				}
+			}
+			return true
+		})
+	}
+	add("serve loop: the handler runs in its own goroutine, which ends in a select-send on completed", hgo && !hinline)
+	if err := dspMakeChanCaps(c, sd.Body, "serve.", &ff.caps); err != nil {
+		return nil, err
+	}
+	return ff, nil
 }
 
 func dspContainsCall(n ast.Node, sel string) bool {
